@@ -41,5 +41,12 @@ LonDir(v4) == IF v4 >= 0 THEN "E" ELSE "W"
 HijriMonths == << "Muharram", "Safar", "Rabia Awal", "Rabia Thani", "Jumada Awal", "Jumada Thani", "Rajab",
                   "Shaaban", "Ramadan", "Shawwal", "Dhul Qiddah", "Dhul Hijjah" >>
 HijriDays == << "Ahad", "Ithnain", "Thulatha", "Arbiaa", "Khamees", "Jumaah", "Sabt" >>
+\* the tool's date defaults (read_params_cli; the comments in src/cli.rs say "default today" for both dates, the code - and
+\* this specification - resolve an omitted end date to the START date): <<first, last>> day numbers of the range computed
+CliRange(mode, d, today) == CASE mode = "s" -> <<d, d>>
+                              [] mode = "n" -> <<today, d>>
+                              [] OTHER -> <<today, today>>
+CliCount(rng) == IF rng[2] < rng[1] THEN 0 ELSE rng[2] - rng[1] + 1
+
 PrayerNames == << "Imsaak", "Fajr", "Shurooq", "Dhuhr", "Asr", "Maghrib", "Isha" >>
 =============================================================================
